@@ -61,10 +61,18 @@ pub fn offer(ctx: &mut Ctx, it: &Item, types: &[Ty], nstyles: usize, strict: boo
 }
 
 pub fn fixed_base(ty: Ty, salt: u64, i: u64, max_depth: u32) -> Item {
-    let mut r = Rng::new(crate::rng::mix(salt, i));
+    // a base is a valid value of moderate size (its complete neighbourhood grows with the square of
+    // its node count): the first of eight candidates with at most 120 nodes
     let o = GenOpts { styled_prot: 0, built: false, max_depth, mixed: false };
-    let v = gen::gen_mval(&mut r, ty, &o);
-    let it = model::encode(&v);
+    let mut r = Rng::new(crate::rng::mix(salt, i));
+    let mut it = model::encode(&gen::gen_mval(&mut r, ty, &o));
+    for attempt in 1..8u64 {
+        if gen::count_nodes(&it, true) <= 120 {
+            break;
+        }
+        r = Rng::new(crate::rng::mix(salt, i + attempt * 1_000_003));
+        it = model::encode(&gen::gen_mval(&mut r, ty, &o));
+    }
     // every other base has its top-level map entries in a scattered (non-canonical) wire order
     match it {
         Item::Map(mut m) if i % 2 == 1 => {
